@@ -17,7 +17,8 @@ Inductive rclass :=
 | Pass
 | Revoked (subject : string)
 | Unknown (subject : string)
-| Inconclusive.            (* validator error, or no validator at all *)
+| Inconclusive.            (* validator error, no validator at all, or an answer that is not
+                              one result per certificate *)
 
 Record input := mk_input {
   i_action : action;       (* action of the revocation type in the level *)
@@ -58,8 +59,9 @@ Definition step (a : acc) (x : rres * string) : acc :=
   else mk_acc r (a_numOK a) s (a_revFound a) (a_revSubj a).
 
 (* the loop runs i = len(results)-1 .. 0; [combine] pairs result i with
-   certificate i (for a vector longer than the chain the Go code indexes out of
-   range — outside the validator contract, excluded by [wf]) *)
+   certificate i. Since fix d78db00 the function is only called with
+   len(results) = len(chain) (checkRevocationResults); before it, a longer vector
+   indexed the chain out of range and a shorter one was aggregated as it was. *)
 Definition final_result (rs : list rres) (chain : list string) : rres * string :=
   let a := fold_left step (rev (combine rs chain)) acc0 in
   let '(f, p) := if a_revFound a then (RRevoked, a_revSubj a) else (a_final a, a_prob a) in
@@ -89,13 +91,19 @@ Definition model (i : input) : obs :=
       let res :=
         match i_vout i with
         | VErr => Inconclusive
-        | VRes rs => classify (final_result rs (i_chain i))
+        | VRes rs =>
+            (* checkRevocationResults (fix d78db00): one result per certificate, else inconclusive *)
+            if Nat.eqb (List.length rs) (List.length (i_chain i))
+            then classify (final_result rs (i_chain i))
+            else Inconclusive
         end in
       mk_obs calls (Some res)
              (match i_action i with Enforce => is_failure res | _ => false end)
   end.
 
-(* well-formed inputs: the validator contract (one result per certificate) *)
+(* the validator contract (one result per certificate). Since fix d78db00 the code checks it
+   itself (an answer outside it is inconclusive), so [wf] is no longer needed as a hypothesis;
+   it is kept because older statements mention it. *)
 Definition wf (i : input) : bool :=
   match i_vout i with
   | VErr => true
@@ -135,7 +143,9 @@ Definition result_ok (i : input) (c : rclass) : bool :=
   match i_vout i with
   | VErr => match c with Inconclusive => true | _ => false end
   | VRes rs =>
-      if forallb is_ok rs then match c with Pass => true | _ => false end
+      if negb (Nat.eqb (List.length rs) (List.length (i_chain i)))
+      then match c with Inconclusive => true | _ => false end
+      else if forallb is_ok rs then match c with Pass => true | _ => false end
       else if existsb is_revoked rs then
         match c with Revoked s => named_ok is_revoked rs (i_chain i) s | _ => false end
       else
@@ -174,26 +184,27 @@ Record case := mk_case { c_id : N; c_in : input; c_obs : obs }.
 Definition run (cs : list case) : list (N * N * N) :=
   run_cases c_id
     (fun c => obs_eqb (model (c_in c)) (c_obs c))
-    (fun c => negb (wf (c_in c)) || spec_ok (c_in c) (c_obs c))
+    (fun c => spec_ok (c_in c) (c_obs c))
     (fun _ => 0%N) cs.
 
 (* ====================================================================== *)
-(* The FULL model (added by the theorem audit, docs/audit/C05.md).
+(* The FULL model (added by the theorem audit, docs/audit/C05.md; revised after fix
+   d78db00 of /repo, which the audit's finding F1/F2 led to).
 
-   [model] above abstracts four things away that the property quantifies over
-   or that the anchored code decides itself:
+   [model] above abstracts things away that the property quantifies over or that the
+   anchored code decides itself:
      - the OCSP/CRL/fallback method annotation and the per-server results of
        every CertRevocationResult (no input of [model] at all),
      - an error returned TOGETHER with a result vector (collapsed into [VErr]),
      - the VALUE of the signing time handed to the validator (only zero / non-zero),
-     - answers outside the one-result-per-certificate contract (excluded by [wf]):
-       a shorter vector is aggregated as it is, a longer one makes
-       revocationFinalResult index certChain out of range (run-time panic),
+     - nil entries of the result slice,
      - the verifier whose two validator fields are both nil.
    [xmodel] takes all of this as input and mirrors verifyRevocation statement by
-   statement. The aggregation itself is the same [final_result] / [classify].
-   The harness (vh-c05) emits [xcase]s; [model] is a proven projection of
-   [xmodel] (C05_Full.xmodel_refines_model). *)
+   statement, including checkRevocationResults. The aggregation itself is the same
+   [final_result] / [classify]. The harness (vh-c05) emits [xcase]s; [model] is a proven
+   projection of [xmodel] (C05_Full.xmodel_refines_model).
+   [xmodel_v0] is the code BEFORE fix d78db00 (no checkRevocationResults): kept so that
+   the defect stays stated (C05_pass_only_if_v0_refuted, C05_v0_panic_iff). *)
 
 (* one *result.CertRevocationResult as the validator returns it *)
 Record certres := mk_cr {
@@ -212,7 +223,7 @@ Record xinput := mk_xinput {
                                  For signingAuthority this is what SignerInfo.AuthenticSigningTime() yields *)
   x_chain : list string;      (* subjects of the signing chain, leaf first *)
   x_err : bool;               (* the validator returned a non-nil error ... *)
-  x_results : list certres }. (* ... and this result slice (nil = []) *)
+  x_results : list (option certres) }. (* ... and this result slice (nil slice = []; None = nil entry) *)
 
 Record xcall := mk_xcall {
   xk_which : N;               (* 1 = ValidateContext, 2 = deprecated Validate *)
@@ -223,15 +234,30 @@ Record xobs := mk_xobs {
   xo_calls : list xcall;
   xo_result : option rclass;  (* revocation entry of the outcome; None = no entry *)
   xo_rejected : bool;         (* Verify returned an error *)
-  xo_panic : bool }.          (* Verify did not return: run-time panic (index out of range) *)
+  xo_panic : bool }.          (* Verify did not return: run-time panic (recovered by the harness) *)
 
 Definition enforce_fails (a : action) (c : rclass) : bool :=
   match a with Enforce => is_failure c | _ => false end.
 
-Definition xresults (x : xinput) : list rres := map cr_result (x_results x).
+Definition is_some {A} (o : option A) : bool := match o with Some _ => true | None => false end.
+
+(* results of the non-nil entries, in order (all entries when none is nil) *)
+Definition xresults (x : xinput) : list rres :=
+  flat_map (fun o => match o with Some c => [cr_result c] | None => [] end) (x_results x).
+
+(* checkRevocationResults: exactly one non-nil result per certificate *)
+Definition complete (x : xinput) : bool :=
+  Nat.eqb (List.length (x_results x)) (List.length (x_chain x)) && forallb is_some (x_results x).
 
 (* the time verifyRevocation computes: AuthenticSigningTime() only under signingAuthority *)
 Definition xtime (x : xinput) : option Z := if x_sa x then x_stime x else None.
+
+Definition xcalls (x : xinput) : list xcall :=
+  match x_val x with
+  | 0%N => []
+  | 2%N => [mk_xcall 2 (x_chain x) (xtime x)]
+  | _ => [mk_xcall 1 (x_chain x) (xtime x)]
+  end.
 
 Definition xmodel (x : xinput) : xobs :=
   match x_action x with
@@ -240,27 +266,38 @@ Definition xmodel (x : xinput) : xobs :=
       (* if v.revocationCodeSigningValidator == nil && v.revocationClient == nil *)
       if (x_val x =? 4)%N then
         mk_xobs [] (Some Inconclusive) (enforce_fails a Inconclusive) false
+      (* if err != nil *)
+      else if x_err x then
+        mk_xobs (xcalls x) (Some Inconclusive) (enforce_fails a Inconclusive) false
+      (* if err := checkRevocationResults(certResults, chain); err != nil *)
+      else if negb (complete x) then
+        mk_xobs (xcalls x) (Some Inconclusive) (enforce_fails a Inconclusive) false
       else
-        let calls :=
-          match x_val x with
-          | 0%N => []
-          | 2%N => [mk_xcall 2 (x_chain x) (xtime x)]
-          | _ => [mk_xcall 1 (x_chain x) (xtime x)]
-          end in
-        (* if err != nil *)
-        if x_err x then
-          mk_xobs calls (Some Inconclusive) (enforce_fails a Inconclusive) false
-        (* revocationFinalResult: i := len(certResults)-1; cert := certChain[i] *)
-        else if Nat.ltb (List.length (x_chain x)) (List.length (x_results x)) then
-          mk_xobs calls None false true
-        else
-          let res := classify (final_result (xresults x) (x_chain x)) in
-          mk_xobs calls (Some res) (enforce_fails a res) false
+        let res := classify (final_result (xresults x) (x_chain x)) in
+        mk_xobs (xcalls x) (Some res) (enforce_fails a res) false
   end.
 
-(* the revocation.Validator contract as notation-core-go implements it: one result per certificate *)
-Definition xwf (x : xinput) : bool :=
-  x_err x || Nat.eqb (List.length (x_results x)) (List.length (x_chain x)).
+(* the code before fix d78db00: no checkRevocationResults. revocationFinalResult runs
+   i := len(certResults)-1 .. 0 with cert := certChain[i] (out of range when there are more
+   results than certificates) and certResult.RevocationMethod (nil dereference on a nil entry) *)
+Definition xmodel_v0 (x : xinput) : xobs :=
+  match x_action x with
+  | Skip => mk_xobs [] None false false
+  | a =>
+      if (x_val x =? 4)%N then
+        mk_xobs [] (Some Inconclusive) (enforce_fails a Inconclusive) false
+      else if x_err x then
+        mk_xobs (xcalls x) (Some Inconclusive) (enforce_fails a Inconclusive) false
+      else if Nat.ltb (List.length (x_chain x)) (List.length (x_results x))
+              || negb (forallb is_some (x_results x)) then
+        mk_xobs (xcalls x) None false true
+      else
+        let res := classify (final_result (xresults x) (x_chain x)) in
+        mk_xobs (xcalls x) (Some res) (enforce_fails a res) false
+  end.
+
+(* the contract notation-core-go's own validator keeps: an error, or one non-nil result per certificate *)
+Definition xwf (x : xinput) : bool := x_err x || complete x.
 
 Definition optz_eqb (a b : option Z) : bool := opt_eqb Z.eqb a b.
 
@@ -274,9 +311,12 @@ Definition xobs_eqb (a b : xobs) : bool :=
   && Bool.eqb (xo_rejected a) (xo_rejected b)
   && Bool.eqb (xo_panic a) (xo_panic b).
 
-(* ---------- the property oracle on the implementation's observations (does not call [xmodel]) ---------- *)
+(* ---------- the property oracle on the implementation's observations (does not call [xmodel]) ----------
+   Evaluated on EVERY case, also on answers outside the contract: there the validation must not
+   pass (it is inconclusive), and Verify must never panic. *)
 Definition xresult_ok (x : xinput) (c : rclass) : bool :=
-  if (x_val x =? 4)%N || x_err x then match c with Inconclusive => true | _ => false end
+  if (x_val x =? 4)%N || x_err x || negb (complete x)
+  then match c with Inconclusive => true | _ => false end
   else
     let rs := xresults x in
     if forallb is_ok rs then match c with Pass => true | _ => false end
@@ -311,9 +351,27 @@ Definition xspec_ok (x : xinput) (o : xobs) : bool :=
 
 Record xcase := mk_xcase { xc_id : N; xc_in : xinput; xc_obs : xobs }.
 
-(* correspondence on EVERY input (also outside the contract); the property oracle under the contract *)
+(* correspondence and the property oracle on EVERY input *)
 Definition xrun (cs : list xcase) : list (N * N * N) :=
   run_cases xc_id
     (fun c => xobs_eqb (xmodel (xc_in c)) (xc_obs c))
-    (fun c => negb (xwf (xc_in c)) || xspec_ok (xc_in c) (xc_obs c))
+    (fun c => xspec_ok (xc_in c) (xc_obs c))
     (fun _ => 0%N) cs.
+
+(* ---------- validator selection (verifier.setRevocation, head of verifyRevocation) ----------
+   [x_val] above encodes the options the caller gave to the constructor. These two
+   functions spell the selection out: the fields of the verifier after setRevocation
+   (code-signing validator set, deprecated client set), and the field verifyRevocation
+   consults (None: both nil, the validation fails without consulting anything). *)
+Definition set_revocation (supplied_validator supplied_client : bool) : bool * bool :=
+  if supplied_validator then (true, false)
+  else if supplied_client then (false, true)
+  else (true, false).                    (* the library default, revocation.NewWithOptions *)
+
+Definition consulted (fields : bool * bool) : option N :=
+  if fst fields then Some 1%N else if snd fields then Some 2%N else None.
+
+Definition val_of_options (supplied_validator supplied_client : bool) : N :=
+  match supplied_validator, supplied_client with
+  | true, false => 1 | false, true => 2 | true, true => 3 | false, false => 0
+  end.
